@@ -1375,6 +1375,13 @@ impl SvgElement {
         // The deltas apply to the size `Position` will see: a round shape given by a
         // radius is measured by it (the attribute then holds half the size), anything
         // else - including a circle / ellipse sized through `wh` - by width / height.
+        if self.name == "ellipse" && (self.has_attr("dw") || self.has_attr("dh")) {
+            // an ellipse has two radii: `r` stands for both, the deltas apply to one each
+            if let Some(r) = self.pop_attr("r") {
+                self.set_default_attr("rx", &r);
+                self.set_default_attr("ry", &r);
+            }
+        }
         let round = matches!(self.name.as_str(), "circle" | "ellipse");
         let w_attr = if round && self.has_attr("rx") {
             "rx"
